@@ -120,8 +120,10 @@ def case_s(draw):
             n0 = len(hist["txs"])
             for key in first_adds[:2]:
                 hist["txs"].append({"ops": [["delk", key]], "end": "commit", "merge": False, "optimize": False, "blocklimit": 128})
+            # ... and through a commit that changes nothing (an idle flush)
+            hist["txs"].append({"ops": [], "end": "commit", "merge": False, "optimize": False, "blocklimit": 128})
             actions.append({"tx": n0 - 1, "frac": 1.0, "kind": "open", "who": 0, "lag": 1})
-            for t in (n0, n0 + 1):
+            for t in (n0, n0 + 1, n0 + 2):
                 for who in (0, 1, 2, 3):
                     actions.append({"tx": t, "frac": 1.0, "kind": "refresh", "who": who, "lag": 1})
     return {"hist": hist, "actions": actions,
@@ -184,7 +186,11 @@ def run(case, out):
             p = probe(s0)
             s0.close()
             if sorted(p["stored"]) != sorted(model.keys()):
-                raise HarnessError("reference run differs from the document model")
+                # a searcher opened right after the commit does not show the committed documents
+                out.fail("c03.fresh_searcher_differs_from_model", {"tx": len(states) - 1, "got": sorted(p["stored"])[:12],
+                                                                   "expected": sorted(model.keys())[:12]})
+                rix.close()
+                return
             states.append(p)
             gens.append(gens[-1] + (1 if committed else 0))
             merging.append(bool(committed) and nseg_before >= 1 and len(rix._segments()) <= nseg_before
@@ -325,6 +331,14 @@ def run(case, out):
                     close_slot(slot)
                     return
                 if expect_current(s2, "refreshed_searcher", where):
+                    try:
+                        utd = s2.up_to_date()
+                    except Exception as e:
+                        utd = repr(e)
+                    if utd is not True:
+                        fail("c03.refreshed_searcher_not_up_to_date", {"where": where, "up_to_date": utd,
+                                                                       "reader_generation": s2.reader().generation(),
+                                                                       "latest": st_["gen"]})
                     if h["crossed_merge"]:
                         flags["refresh_after_merge"] = True
                     held[slot] = {"searcher": s2, "expected": states[st_["cur"]], "state": st_["cur"],
